@@ -621,10 +621,15 @@ namespace AIToolbox::POMDP {
             for (size_t o = 0; o < pomdp.getO(); ++o) {
                 updateBeliefPartialUnnormalized(pomdp, intermediateBelief, a, o, &nextBelief);
 
+                // We normalize when we can. An observation which is (nearly)
+                // impossible from this belief must still be assigned one of
+                // the alphavectors: the output alphavector is going to be
+                // used in other beliefs too, and leaving the observation out
+                // would count its future value as zero, which is not a lower
+                // bound when values are negative.
                 const auto nextBeliefProbability = nextBelief.sum();
-                if (checkEqualSmall(nextBeliefProbability, 0.0)) continue;
-                // Now normalized
-                nextBelief /= nextBeliefProbability;
+                if (checkDifferentSmall(nextBeliefProbability, 0.0))
+                    nextBelief /= nextBeliefProbability;
 
                 const auto it = findBestAtPoint(nextBelief, std::begin(lbVList), std::end(lbVList), nullptr, unwrap);
 
